@@ -147,6 +147,7 @@ def intervals(P, n, prefix="", nonneg=True, ordered=True):
 # ------------------------------------------------------------------------------ unavailability
 @register
 class ResourceUnavailable(RCBase):
+    lifts = True  # element-wise meaning: holds for every list length once the loops are independent (contracts/loops.py)
     target = "resource_constraint.ResourceUnavailable.__init__"
     worker_kinds = ("worker", "cumulative")
     bounded = "1..2 tasks on the resource x 1..2 intervals (3 intervals in thorough); all integers symbolic"
@@ -283,6 +284,7 @@ class PeriodicLemma(Contract):
 
 @register
 class ResourcePeriodicallyUnavailable(RCBase):
+    lifts = True  # element-wise meaning: holds for every list length once the loops are independent (contracts/loops.py)
     target = "resource_constraint.ResourcePeriodicallyUnavailable.__init__"
     worker_kinds = ("worker", "cumulative")
     bounded = "period in {3,5,7} (quick) / {2..7,10} (thorough), one interval per period, 1..2 tasks; other integers symbolic"
@@ -351,6 +353,7 @@ class ResourcePeriodicallyUnavailable(RCBase):
 # ------------------------------------------------------------------------------ workload
 @register
 class WorkLoad(RCBase):
+    lifts = True  # element-wise meaning: holds for every list length once the loops are independent (contracts/loops.py)
     target = "resource_constraint.WorkLoad.__init__"
     worker_kinds = ("worker", "cumulative")
     bounded = "1..2 tasks on the resource x 1..2 intervals; all integers symbolic"
@@ -453,6 +456,7 @@ class ResourceNonDelay(DistBase):
 # ------------------------------------------------------------------------------ interruptions
 @register
 class ResourceInterrupted(RCBase):
+    lifts = True  # element-wise meaning: holds for every list length once the loops are independent (contracts/loops.py)
     target = "resource_constraint.ResourceInterrupted.__init__"
     worker_kinds = ("worker", "cumulative")
     bounded = "1..2 tasks x 1..2 interruptions; all integers symbolic"
@@ -508,6 +512,7 @@ class ResourceInterrupted(RCBase):
 
 @register
 class ResourcePeriodicallyInterrupted(RCBase):
+    lifts = True  # element-wise meaning: holds for every list length once the loops are independent (contracts/loops.py)
     target = "resource_constraint.ResourcePeriodicallyInterrupted.__init__"
     bounded = "period in {4,6} (quick) / {3..7} (thorough), one interruption per period, one task; other integers symbolic"
     task_sets = (("Fm",), ("Fo",), ("Vm",), ("Vo",), ("Fm", "Fm"))
@@ -653,6 +658,7 @@ class SelBase(Contract):
 
 @register
 class SameWorkers(SelBase):
+    lifts = True  # element-wise meaning: holds for every list length once the loops are independent (contracts/loops.py)
     target = "resource_constraint.SameWorkers.__init__"
     cls_name = "SameWorkers"
 
@@ -668,6 +674,7 @@ class SameWorkers(SelBase):
 
 @register
 class DistinctWorkers(SelBase):
+    lifts = True  # element-wise meaning: holds for every list length once the loops are independent (contracts/loops.py)
     target = "resource_constraint.DistinctWorkers.__init__"
     cls_name = "DistinctWorkers"
 
